@@ -1,6 +1,7 @@
 package main
 
 import (
+	"strings"
 	"fmt"
 	"go/token"
 	"go/types"
@@ -169,6 +170,15 @@ func (ex *Exec) step(st *State, in ssa.Instruction) {
 			cn := fmt.Sprintf("clo.cap%d", i)
 			st.sc.declFun(cn, []Sort{SInt}, SInt)
 			st.sc.assert(eq(app(SInt, cn, id), ex.val(st, b)))
+		}
+		{
+			// closed world: the closure owns exactly the cells of its captured variables
+			st.declOwns()
+			ds := []string{"false"}
+			for _, b := range t.Bindings {
+				ds = append(ds, fmt.Sprintf("(= o %s)", ex.val(st, b).S))
+			}
+			st.sc.emit("(assert (forall ((o Int)) (! (= (clo.owns %s o) (or %s)) :pattern ((clo.owns %s o)))))", id.S, strings.Join(ds, " "), id.S)
 		}
 		st.vals[t] = id
 		ex.closureRequiresAtMake(st, t)
@@ -593,7 +603,7 @@ func (ex *Exec) assignableCond(st *State, ft frameTarget) Term {
 		if ls.Region {
 			return tTrue
 		}
-		c := eq(ft.Obj, ls.Obj)
+		c := ls.member(ft.Obj)
 		if ls.Guard != nil {
 			c = and(*ls.Guard, c)
 		}
